@@ -168,6 +168,9 @@ func zzHavoc(name string, ptr interface{}, spec string) {
 				fill(name+"."+t.Field(i).Name, v.Field(i), t.Field(i).Name)
 			}
 		case reflect.Ptr:
+			if k := t.Elem().Kind(); k != reflect.Struct && k != reflect.Map && k != reflect.Slice && vals[name+".nil"] == "true" {
+				return // optional scalar left nil
+			}
 			nv := reflect.New(t.Elem())
 			fill(name, nv.Elem(), field)
 			v.Set(nv)
